@@ -56,3 +56,5 @@ pub proof fn lemma_answer(m: HashMap<EntityUid, Option<Entity>>, items: Seq<(ast
 ]
 VERUS_ARGS = ['--multiple-errors', '5']
 CANARIES = []
+# the public entry point itself (a pass-through to the core loop with the adapter above) takes `&mut dyn EntityLoader` and is not under contract
+UNCOVERED = [('cedar-policy/src/api/tpe.rs', 'impl PolicySet > fn is_authorized_batched')]
